@@ -434,17 +434,19 @@ def check_error_writer(R, P, u, eng, E, rule="R09.6"):
             bad.append("%s with non-ASCII extended text: %s" % (name, em.describe()))
     # user-defined codes carry their own message text
     if "Custom" in by_name:
-        for msg, ext in ((b"Custom error", None), (b'say "no"', None), (b'say "no"', b'or "yes"')):
+        # (-1234: a number of no standard error; -340, -100, 0: numbers of standard errors - an item created with its own
+        # text keeps that text whatever its number)
+        for cnum, msg, ext in ((-1234, b"Custom error", None), (-1234, b'say "no"', None), (-1234, b'say "no"', b'or "yes"'), (-340, b"Calibration failed, ADC offset", None), (-100, b"Mine", b"more"), (0, b"Nothing", None), (300, b"Positive", None)):
             n += 1
-            cv = EnumV(EC, "Custom", by_name["Custom"], {0: K(-1234), 1: E.sl(msg)})
-            exp = [("num", -1234), b"," + b'"' + q(msg) + (b";" + q(ext) if ext is not None else b"") + b'"']
+            cv = EnumV(EC, "Custom", by_name["Custom"], {0: K(cnum), 1: E.sl(msg)})
+            exp = [("num", cnum), b"," + b'"' + q(msg) + (b";" + q(ext) if ext is not None else b"") + b'"']
             try:
                 em = E.emit(eng, b, err(cv, E.sl(ext) if ext is not None else None))
                 why = E.check_emission(em, exp)
             except (fdai.TooManyPaths, RecursionError) as e:
                 why = "undecided (%s)" % type(e).__name__
             if why:
-                bad.append("Custom(%r) ext=%r: %s" % (msg, ext, why))
+                bad.append("Custom(%d, %r) ext=%r: %s" % (cnum, msg, ext, why))
     R.check(not bad and (n >= 20 or bad), rule, "Error", "code ',' '\"' message [';' extended] '\"' with embedded quotes doubled; non-ASCII text refused (%d values)" % n, "; ".join(bad[:4]), where=b.span)
 
 
